@@ -247,6 +247,16 @@ theorem elabItem_wf {T : Tables} {ap core : Bool} {R R' : Reg} {it : Item} (hT :
     rcases hd with hd | rfl
     · exact hR.ms d hd
     · exact ⟨⟨by unfold Al; simp, by simp⟩, by simp⟩
+  | reserved n id hsh =>
+    simp only [elabItem] at h
+    split at h
+    · simp at h
+    simp at h; subst h
+    refine ⟨hR.al, hR.st, ?_⟩
+    intro d hd; simp at hd
+    rcases hd with hd | rfl
+    · exact hR.ms d hd
+    · exact ⟨⟨by unfold Al; simp, by simp⟩, by simp⟩
 
 theorem elaborate_wf {T : Tables} {ap : Bool} (hT : TablesWf T) :
     ∀ (items : List (Bool × Item)) (R R' : Reg), RegWf R → elaborate T ap items R = .ok R' → RegWf R'
@@ -257,6 +267,32 @@ theorem elaborate_wf {T : Tables} {ap : Bool} (hT : TablesWf T) :
     · simp at h
     · rename_i R1 h1
       exact elaborate_wf hT r R1 R' (elabItem_wf hT hR h1) h
+
+/-- the parser's own ctypes table knows every native type (`NativeType.name`) and `char` (padding) -/
+def TablesCt (T : Tables) : Prop :=
+  (∀ r ∈ T.natives, T.parserCt.contains r.2.1 = true) ∧ T.parserCt.contains T.charName = true
+
+theorem ctOk_true {T : Tables} (hC : TablesCt T) (R : Reg) (fs : List FieldR) : ctOk T R fs = true := by
+  unfold ctOk
+  simp only [List.all_eq_true]
+  intro f _
+  split
+  · rename_i k hk
+    unfold ctKey at hk
+    split at hk
+    · cases hn : assoc T.natives f.ty with
+      | none => simp [hn] at hk
+      | some v => simp [hn] at hk; subst hk; exact hC.1 _ (assoc_mem hn)
+    · split at hk
+      · rename_i a _
+        split at hk
+        · simp at hk
+        · cases hn : assoc T.natives a.target with
+          | none => simp [hn] at hk
+          | some v => simp [hn] at hk; subst hk; exact hC.1 _ (assoc_mem hn)
+      · simp at hk
+    · simp at hk
+  · rfl
 
 end Pyrtma.Emit
 
@@ -415,6 +451,16 @@ theorem elabItem_layout {T : Tables} {ap core : Bool} {R R' : Reg} {it : Item} (
           · exact hL.2 d hd
           · exact layoutOk_of (layoutDef_layout (specFields_wf hT hR hfs) hl)
   | signal n id hsh =>
+    simp only [elabItem] at h
+    split at h
+    · simp at h
+    simp at h; subst h
+    refine ⟨hL.1, ?_⟩
+    intro d hd; simp at hd
+    rcases hd with hd | rfl
+    · exact hL.2 d hd
+    · simp [DefR.layoutOk]
+  | reserved n id hsh =>
     simp only [elabItem] at h
     split at h
     · simp at h
